@@ -541,6 +541,9 @@ pub enum Fail {
     /// a definition whose name clashes with a name the session itself defined earlier
     /// (a unit named like a variable or function, a variable named like a unit)
     SessionNameClash(u8),
+    /// a clash that only the type checker notices: a dimension or struct defined twice, a
+    /// variable named like a function, a function named like a variable (prelude or session names)
+    CheckerNameClash(u8),
 }
 
 pub fn fail_strategy() -> impl Strategy<Value = Fail> {
@@ -562,6 +565,8 @@ pub fn fail_strategy() -> impl Strategy<Value = Fail> {
         (0u8..3).prop_map(Fail::ExprRuntime),
         (0u8..30).prop_map(Fail::SessionNameClash),
         (0u8..30).prop_map(Fail::SessionNameClash),
+        (0u8..36).prop_map(Fail::CheckerNameClash),
+        (0u8..36).prop_map(Fail::CheckerNameClash),
     ]
 }
 
@@ -594,6 +599,18 @@ pub fn render_fail(f: Fail, env: &mut Env) -> (String, &'static str) {
                 _ => (!env.fns.is_empty()).then(|| format!("unit {}: Length = 3 m", env.fns[(k / 3) as usize % env.fns.len()].0)),
             };
             (text.unwrap_or_else(|| "let metre = 1".into()), "name")
+        }
+        Fail::CheckerNameClash(k) => {
+            let pick = (k / 6) as usize;
+            let text = match k % 6 {
+                0 => Some("dimension Velocity".to_string()),
+                1 => Some("dimension Length = Time * Mass".to_string()),
+                2 => Some(format!("let {} = 2", ["sqrt", "sin", "len", "mean", "abs", "floor"][pick % 6])),
+                3 => Some(format!("fn {}() = 3", ["pi", "e", "tau", "speed_of_light", "golden_ratio", "avogadro_constant"][pick % 6])),
+                4 => (!env.fns.is_empty()).then(|| format!("let {} = 2", env.fns[pick % env.fns.len()].0)),
+                _ => (!env.vars.is_empty()).then(|| format!("fn {}() = 3", env.vars[pick % env.vars.len()].0)),
+            };
+            (text.unwrap_or_else(|| "dimension Energy".into()), "name")
         }
         Fail::ExprRuntime(k) => (["2 * (1 / 0)", "error(\"boom\")", "4 km / (2 m - 200 cm) * 0 + 1 / 0"][k as usize % 3].to_string(), "runtime"),
     }
